@@ -76,6 +76,8 @@ class TargetResult:
         self.samples = []
         self.canary_ok = False
         self.choices = {}         # (label, trace) -> (choices_made)
+        self.backends = {}
+        self.pending = []
 
     def summary(self):
         by = {"discharged": 0, "refuted": 0, "unknown": 0}
@@ -331,6 +333,8 @@ def run_path(c: Contract, prefix, timeout_ms, root, src_index, res: TargetResult
     res.paths += 1
     res.solver_time += getattr(ctx, "solver_time", 0.0)
     res.assumed.update(ctx.assumed)
+    for k, v in getattr(ctx, "backend_used", {}).items():
+        res.backends[k] = res.backends.get(k, 0) + v
     for ob in ctx.obligations:
         key = (ob.label, ob.trace)
         if key not in res.obligations:
@@ -360,21 +364,35 @@ def _bind_nested(c, it, outer, rest, g):
 
 
 def _exec_until_def(it, body, frame, name):
+    """Run the enclosing body up to the target def, then also bind the defs
+    that follow it directly (sibling closures that the target may call)."""
+    found = None
     for st in body:
+        if found is not None:
+            if isinstance(st, ast.FunctionDef):
+                it.exec(st, frame)
+                continue
+            break
         if isinstance(st, ast.FunctionDef) and st.name == name:
             it.exec(st, frame)
-            return frame.vars[name]
+            found = frame.vars[name]
+            continue
         it.exec(st, frame)
-    return None
+    return found
 
 
-def run_contract(c: Contract, timeout_ms=10000, max_paths=20000, root=None):
+def run_contract(c: Contract, timeout_ms=10000, max_paths=20000, root=None,
+                 prefixes=((),), expand=True):
+    """Explore the path tree below each of `prefixes`.  With expand=False only
+    the given paths are run and the alternatives they discover are returned in
+    res.pending (used by the driver to spread sub-trees over processes)."""
     root = root or repo_root()
     ensure_repo_on_path()
     res = TargetResult(c.id)
+    res.pending = []
     t0 = time.time()
     src_index = SourceIndex()
-    work = [()]
+    work = [tuple(p) for p in prefixes]
     tmo = c.timeout_ms or timeout_ms
     while work:
         prefix = work.pop()
@@ -386,6 +404,30 @@ def run_contract(c: Contract, timeout_ms=10000, max_paths=20000, root=None):
         except Exception as e:
             res.errors.append("checker crash: " + "".join(traceback.format_exception(e))[-1500:])
             break
-        work.extend(ctx.alts)
+        if expand:
+            work.extend(ctx.alts)
+        else:
+            res.pending.extend(tuple(x) for x in ctx.alts)
     res.wall = time.time() - t0
     return res
+
+
+def merge_results(a: TargetResult, b: TargetResult):
+    for k, ob in b.obligations.items():
+        if k not in a.obligations:
+            a.obligations[k] = ob
+            a.choices[k] = b.choices.get(k, [])
+    a.paths += b.paths
+    a.normal_paths += b.normal_paths
+    a.exc_paths += b.exc_paths
+    a.infeasible += b.infeasible
+    a.unsupported += b.unsupported
+    a.errors += b.errors
+    a.solver_time += b.solver_time
+    a.wall = max(a.wall, b.wall)
+    a.assumed |= b.assumed
+    a.functions |= b.functions
+    a.canary_ok = a.canary_ok or b.canary_ok
+    for k, v in getattr(b, "backends", {}).items():
+        a.backends[k] = a.backends.get(k, 0) + v
+    return a
